@@ -123,9 +123,9 @@ def c20_pre(ROOT, REPO, BUILD, sh, GOENV, tier, seed):
 
 PROPS = {
     "C08": dict(
-        level_text="PARTIAL proof. Proved in Coq for every state and symbol: one activation notifies the init flow, then (only if it did not fail) the load hooks once and the begin flow; symmetrically term/unload/final; after the first failing flow nothing more is notified and the error an Insert returns is a flow's error. Not proved: dependencies-first ordering (correctness of the Kahn-style traversal). It is evaluated, with the wrapping and abort clauses, by a Go oracle on the notifications of every operation of every generated history (acyclic universes, lifecycle ports attached to responder nodes that succeed or fail, all insertion/removal orders the generator draws), and the per-symbol notification sequences and results are compared with the model up to the first aborted operation.",
-        level_note="Partial: ordering is oracle-checked on generated histories. After an aborted operation the set of already-notified independent dependents depends on Go map order, so the model comparison stops there (the oracle continues). Trusted as C06.",
-        technique="Coq lemmas on the shape of activation/deactivation and on abort + vm_compute correspondence + direct ordering oracle",
+        level_text="Coq theorems. For every table state and start symbol: (1) DEPENDENCIES FIRST - the list one operation walks (Table.linked: breadth-first in-degree count, then Kahn's algorithm; the model's fuel is shown sufficient) holds, when the references are acyclic, exactly the symbols that reach the start symbol through references, once each, and every symbol in it comes after all the symbols of the list it refers to; the load notifications of one load are a subsequence of it (dependencies first), the unload notifications of one unload a subsequence of its reverse (dependents first); without acyclicity the part Kahn's loop produced is still ordered. (2) WRAPPING - one activation notifies the init flow, then (only if it did not fail) the load hooks once and the begin flow; symmetrically term/unload/final. (3) ABORT - after the first failing flow nothing more is notified and the error an Insert returns is a flow's error. Tied to pkg/symbol by correspondence: generated histories (acyclic universes, lifecycle ports attached to responder nodes that succeed or fail, all insertion/removal orders the generator draws) on a real Table; per-symbol notification sequences and results compared with the model up to the first aborted operation, and a Go oracle evaluates the order, wrapping and abort clauses on the notifications of every operation.",
+        level_note="Proved about the hand-written model of table.go; the model fixes Go's map iteration order, which the theorems do not depend on (they hold for the list order the model picks, and the implementation's notification order is compared per symbol and checked by the oracle across symbols). After an aborted operation the set of already-notified independent dependents depends on Go map order, so the model comparison stops there (the oracle continues). Trusted as C06.",
+        technique="Coq proofs (Kahn ordering with fuel sufficiency, shape of activation/deactivation, abort) + vm_compute correspondence + direct ordering oracle",
         quick_n=300, thorough_n=8000, shard=20, mismatch_is_failure=True,
         assumptions=["one table operation at a time (C20)", "at most one responder per lifecycle port"],
         trusted_base=["pkg/symbol/table.go, symbol.go and the Link/Unlink/close-hook behaviour of pkg/port transcribed by hand into theories/Table/Table.v (Go map iteration order fixed; observables compared as sets / per-symbol sequences)", COMMON_MODEL],
